@@ -39,3 +39,11 @@ claim("C16", "Persistence as a frame condition of every transition harness: a de
       "and the same transition applied twice from it gives equal results modulo instance ids.", _NOTE, "4/C16")
 claim("C17", "One-step induction: 'a waiting request that records a modelled vehicle => that vehicle is in DispatchTrip to it' is re-established by every instruction and every vehicle update "
       "including the out-of-energy path and arrival; dispatcher harness for at-most-one vehicle per request.", _NOTE, "4/C17")
+
+claim("C08", "One-step induction on the index maps: one real add/modify/remove/pop from an arbitrary index-consistent pre-state (indexes computed independently by the harness) "
+      "yields index maps that are exactly the images of the entity maps; vehicle moves/pickups likewise (T-upd); stations/bases cannot move.", _NOTE, "4/C08")
+claim("C11", "One inductive step of the real reader/admission/cancellation pipeline and of the real price update with symbolic clock, timeout, row times, keys and prices "
+      "(reader positioned arbitrarily); the solver decides exactly-once admission at the first step after departure, expiry, cancellation at departure+timeout, price application to exactly the named stations.",
+      _NOTE + " String parsing of timestamps is outside the claim.", "4/C11")
+claim("C15", "Real tick/apply_update/runner/crank executed symbolically: uniform clock, exact number of runner steps, step() refusal, and split-vs-whole equality of states and events for a+b<=2 (quick) / <=3 (thorough).",
+      _NOTE + " File handlers and I/O are outside the claim.", "4/C15")
